@@ -187,11 +187,17 @@ func genKeyPool(g *rng.R, locus []byte, n int) []string {
 }
 
 func runC18(r *ev.Run) {
-	r.Rule = "exhaustive: BFS over op sequences {put(ttl 0/1/5), update, delete, expire(+1/+3/+7)} on a 1-byte locus and a 15-key universe covering buckets 0..8, for every constructor-accepted (max<=10, minPerBucket), de-duplicated on (model state, clock); random: long sequences on 32-byte (and 2-byte) loci with engineered shared prefixes, ties, zero TTL and the zero time; after every op Count/VerifCheck/IsFull/full enumeration/Get agree with a reference map and eviction victims come from the farthest non-protected bucket. non-trivial = sequence reached capacity (>=1 eviction) or expired >=1 entry; distinct = model-state hash"
+	r.Rule = "exhaustive: BFS over op sequences {put(ttl 0/1/5), update, delete, expire(+1/+3/+7)} on a 1-byte locus and a 15-key universe covering buckets 0..8, for every constructor-accepted (max<=10, minPerBucket), de-duplicated on (model state, clock); random: long sequences on 32-byte (and 2-byte) loci with engineered shared prefixes, ties, zero TTL and the zero time; after every op Count/VerifCheck/IsFull/full enumeration/Get agree with a reference map and eviction victims come from the farthest non-protected bucket. DHTNode level: peer table and data store kept below capacity, peers re-added with different info and values re-put, every lookup path (GetPeer, ListNodeInfos, HandleFindNode, Get, HandleGet) must return the latest stored value. non-trivial = sequence reached capacity (>=1 eviction) or expired >=1 entry; distinct = model-state hash"
 	r.Assumptions = []string{
 		"Delete's return value for absent keys is not asserted",
 		"which entry inside the eviction bucket is chosen is not asserted",
 		"when no bucket exceeds its minimum yet the count exceeds max, any reported victim is accepted",
+	}
+	for i := 0; i < pick(r, 4, 40); i++ {
+		caseID := fmt.Sprintf("dhtnode-%d-%d", r.Batch, i)
+		if r.Want(caseID) {
+			c18DHTNode(r, rng.New(r.Seed, "C18", "dhtnode", fmt.Sprint(r.Batch), fmt.Sprint(i)), caseID)
+		}
 	}
 	// --- exhaustive part: configurations are dealt to batches
 	locus := byte(0xA5)
